@@ -197,6 +197,19 @@ def _c12_dtype(vals):
     return "int64" if vals and all(float(v).is_integer() and abs(v) >= 1e14 for v in vals) else float
 
 
+_C12_MODEL = []
+
+
+def _c12_model():
+    """a small model (monetary factor 10**3: never the event's) on the labels of the C12 cases, built once and rebuilt when used"""
+    try:
+        tbm = corpus.base_table(m=len(REGS), n=len(SECS), k=1, seed=11, scale=1e6)
+        cfgm = corpus.base_cfg(monetary_factor=10**3)
+        return scen.build_model(tbm, cfgm)
+    except Exception:
+        return None
+
+
 def run_c12_impl(case):
     kw = dict(occurrence=1, duration=1, event_monetary_factor=case.get("emf", 10**6))
     if case["event_type"] == "rebuild":
@@ -230,6 +243,18 @@ def run_c12_impl(case):
             ev = bev.from_series(s, **kw)
     except Exception as e:
         return {"out": "reject", "exc": f"{type(e).__name__}: {str(e)[:100]}"}
+    # registering the event in a simulation whose unit differs from the event's leaves the event as it was
+    try:
+        mdl = _c12_model()
+        if mdl is not None and not ev.impact.index.has_duplicates:
+            before_reg = ev.impact.copy(deep=True)
+            simr = Simulation(mdl, n_temporal_units_to_sim=5)
+            simr.add_event(ev)
+            after_reg = ev.impact
+            if not (after_reg.index.equals(before_reg.index) and np.array_equal(after_reg.to_numpy(), before_reg.to_numpy(), equal_nan=True)):
+                return {"out": "ok", "impact": {}, "order": [], "total": float(ev.total_impact), "aff": [], "event_modified": True}
+    except Exception:
+        pass
     for obj, was in given:
         if not (obj.index.equals(was.index) and np.array_equal(obj.to_numpy(), was.to_numpy(), equal_nan=True)):
             return {"out": "ok", "impact": {}, "order": [], "total": float(ev.total_impact), "aff": [], "weights_modified": True}
@@ -293,6 +318,8 @@ def explore_c12(tier, seed):
                     viol(res, "C12", f"invalid input accepted ({case['bad']})", case=case, impl=impl)
             elif impl["out"] != "ok":
                 viol(res, "C12", "valid input rejected", case=case, impl=impl)
+            elif impl.get("event_modified"):
+                viol(res, "C12", "registering the event in a simulation changed its per-industry impacts (they no longer add up to the scalar)", case=case)
             elif impl.get("weights_modified"):
                 viol(res, "C12", "the weight vector given by the caller was modified by the constructor (a second event built from it gets other shares)", case=case)
             elif impl.get("duplicated_index"):
